@@ -118,7 +118,7 @@ def g_z3(n):
 
 
 class Engine:
-    def __init__(self, interp_prefixes=("bibtexparser", "copy", "pysym.prelude"), merge=True, step_limit=2_000_000,
+    def __init__(self, interp_prefixes=("bibtexparser", "copy", "pysym.prelude", "checks.", "__main__"), merge=True, step_limit=2_000_000,
                  max_frames=400, timeout=None):
         self.interp_prefixes = tuple(interp_prefixes)
         self.interp_files = ("/repo/bibtexparser/",)
